@@ -426,6 +426,19 @@ class Walker(object):
         # Expr, Assert, Delete, Pass, Global, Import ...
         for env, conds in states:
             env = self._sinks_in(s, env, conds)
+            c_ = s.value if isinstance(s, ast.Expr) else None
+            if isinstance(c_, ast.Call) and isinstance(c_.func, ast.Attribute) and \
+                    c_.func.attr in ('extend', 'append') and isinstance(c_.func.value, ast.Name) and \
+                    len(c_.args) == 1 and not c_.keywords and \
+                    c_.func.value.id in env and not _has_call(c_.args[0], self.pure):
+                # in-place growth of a local list whose value is tracked: x.extend(E) is x = x + E,
+                # x.append(E) is x = x + [E] (same modelling as `x += E`)
+                nm_ = c_.func.value.id
+                rhs = subst(c_.args[0], env)
+                if c_.func.attr == 'append':
+                    rhs = ast.List(elts=[rhs], ctx=ast.Load())
+                cur = env[nm_] if isinstance(env[nm_], ast.AST) else ast.Name(id=nm_, ctx=ast.Load())
+                env = self._bind(env, nm_, ast.BinOp(left=clone(cur), op=ast.Add(), right=rhs), s)
             if isinstance(s, ast.Delete):
                 for k in _assigned_names([s]):
                     env = self._bind(env, k, None, s)
@@ -552,3 +565,76 @@ def sink_cases(fn, is_sink, **kw):
 
 def return_cases(fn, **kw):
     return [c for c in Walker(want_returns=True, **kw).run(fn) if c.kind == 'return']
+
+
+def inline_stmt_helpers(fn, methods, selfname='self', depth=2):
+    """clone of `fn` in which every expression statement `self.m(a1..an)` (m in `methods`, a method
+    of the same class that returns no value: checks extracted into a private helper) is replaced by
+    m's body with the parameters renamed to the argument names.  Only done when it is exact: the
+    arguments are plain names, m has plain positional parameters, no `return` inside m except a
+    bare one as its last statement, and m's own local names do not clash with names of `fn`."""
+    from .core import set_parents
+
+    def _ok_helper(m, call):
+        a = m.args
+        if a.vararg or a.kwarg or a.kwonlyargs or a.defaults or call.keywords:
+            return None
+        params = [p.arg for p in a.args]
+        if params and params[0] == selfname:
+            params = params[1:]
+        if len(params) != len(call.args) or not all(isinstance(x, ast.Name) for x in call.args):
+            return None
+        body = [st for st in m.body if not (isinstance(st, ast.Expr) and isinstance(st.value, ast.Constant)
+                                            and isinstance(st.value.value, str))]
+        if body and isinstance(body[-1], ast.Return) and body[-1].value is None:
+            body = body[:-1]
+        for st in body:
+            for x in ast.walk(st):
+                if isinstance(x, (ast.Return, ast.Yield, ast.YieldFrom, ast.FunctionDef, ast.Lambda, ast.Global,
+                                  ast.Nonlocal)):
+                    return None
+        ren = dict(zip(params, [x.id for x in call.args]))
+        local = _assigned_names(body)
+        if local & set(params):
+            return None
+        outer = set(n.id for n in ast.walk(fn) if isinstance(n, ast.Name)) | set(p.arg for p in fn.args.args)
+        if (local - set(params)) & outer:
+            return None
+        return body, ren
+
+    class Ren(ast.NodeTransformer):
+        def __init__(self, ren):
+            self.ren = ren
+
+        def visit_Name(self, n):
+            if n.id in self.ren:
+                n.id = self.ren[n.id]
+            return n
+
+    def _expand(stmts, d):
+        out = []
+        for st in stmts:
+            c = st.value if isinstance(st, ast.Expr) else None
+            if d > 0 and isinstance(c, ast.Call) and isinstance(c.func, ast.Attribute) and \
+                    isinstance(c.func.value, ast.Name) and c.func.value.id == selfname and c.func.attr in methods:
+                r = _ok_helper(methods[c.func.attr], c)
+                if r is not None:
+                    body, ren = r
+                    new = [Ren(ren).visit(clone(b)) for b in body]
+                    out.extend(_expand(new, d - 1))
+                    continue
+            for fld in ('body', 'orelse', 'finalbody'):
+                v = getattr(st, fld, None)
+                if isinstance(v, list) and v and isinstance(v[0], ast.stmt):
+                    setattr(st, fld, _expand(v, d))
+            for h in getattr(st, 'handlers', []) or []:
+                h.body = _expand(h.body, d)
+            out.append(st)
+        return out
+
+    new = clone(fn)
+    new.body = _expand(new.body, depth)
+    par = getattr(fn, '_parent', None)
+    set_parents(new)
+    new._parent = par
+    return new
